@@ -716,6 +716,9 @@ type dtCase struct {
 	// Prev: the value of the ROW that precedes this value's ROW under one
 	// format (two-rows leg)
 	Prev *dtVal `json:"previous_row_value,omitempty"`
+	// PrevType (two-columns leg): Prev is the value of the FIRST column of
+	// the row, of this variant; V is the second column's
+	PrevType string `json:"first_column_type,omitempty"`
 }
 
 // ---------------------------------------------------------------- aggregator
@@ -843,6 +846,9 @@ type dtAcc struct {
 	// prev: per variant the last value that went through the row leg
 	prev map[string]*dtVal
 	nth  int
+	// lastAny: the last value (of any variant) that went through the row leg
+	lastAny   *dtVal
+	lastAnyVr *dtVariant
 }
 
 func newDtAcc(r *rt.Result) *dtAcc { return &dtAcc{r: r, counts: map[string]int64{}} }
